@@ -876,6 +876,12 @@ pub fn http_call<T: serde::de::DeserializeOwned>(ep: Endpoint, base: Value, m: H
             // documented: empty 200
             return serde_json::from_value(Value::Null).map_err(|_| ApiErr { code: tonic::Code::Ok, msg: String::new() });
         }
+        // The documented wire format, checked on the raw JSON independently of the serde adapters the tower (and the
+        // client) share: a change in an adapter would otherwise be invisible to a harness that parses with the same types.
+        if let Some(why) = documented_shape_violation(ep, &base, &reply.body) {
+            flag("reply_not_documented", format!("{what}: 200 body is not the documented reply ({why}): {}", show(&reply.body)));
+            return sentinel();
+        }
         return match serde_json::from_slice::<T>(&reply.body) {
             Ok(t) => Ok(t),
             Err(e) => {
@@ -952,4 +958,94 @@ pub fn take_seen() -> HttpSeen {
 
 pub fn take_stats() -> std::collections::BTreeMap<String, u64> {
     STATS.with(|c| std::mem::take(&mut *c.borrow_mut()))
+}
+
+
+fn is_hex(s: &str, bytes: Option<usize>) -> bool {
+    s.len() % 2 == 0 && s.chars().all(|c| c.is_ascii_hexdigit() && !c.is_ascii_uppercase()) && bytes.map(|b| s.len() == 2 * b).unwrap_or(true)
+}
+
+/// Checks a 200 reply against the API documentation (field names, JSON types, hex encodings, transaction ids in the usual
+/// display byte order, status strings). Returns what is wrong.
+fn documented_shape_violation(ep: Endpoint, request: &Value, body: &[u8]) -> Option<String> {
+    if ep == Endpoint::Ping {
+        return None;
+    }
+    let v: Value = match serde_json::from_slice(body) {
+        Ok(v) => v,
+        Err(e) => return Some(format!("not JSON: {e}")),
+    };
+    let o = v.as_object()?;
+    let num = |k: &str| -> Result<u64, String> {
+        o.get(k).and_then(|x| x.as_u64()).filter(|n| *n <= u32::MAX as u64).ok_or(format!("`{k}` is not a 32-bit unsigned number"))
+    };
+    let st = |k: &str| -> Result<String, String> { o.get(k).and_then(|x| x.as_str()).map(|s| s.to_string()).ok_or(format!("`{k}` is not a string")) };
+    let r: Result<(), String> = (|| {
+        match ep {
+            Endpoint::Register => {
+                let uid = st("user_id")?;
+                if Some(uid.as_str()) != request.get("user_id").and_then(|x| x.as_str()).map(|s| s.to_ascii_lowercase()).as_deref() {
+                    return Err("`user_id` is not the requester's id in hex".into());
+                }
+                num("available_slots")?;
+                num("subscription_start")?;
+                num("subscription_expiry")?;
+                st("subscription_signature")?;
+            }
+            Endpoint::AddAppointment => {
+                let loc = st("locator")?;
+                let want = request.get("appointment").and_then(|a| a.get("locator")).and_then(|x| x.as_str()).map(|s| s.to_ascii_lowercase());
+                if Some(loc) != want {
+                    return Err("`locator` is not the appointment's locator in hex".into());
+                }
+                num("start_block")?;
+                st("signature")?;
+                num("available_slots")?;
+                num("subscription_expiry")?;
+            }
+            Endpoint::GetAppointment => {
+                let status = st("status")?;
+                let a = o.get("appointment").and_then(|x| x.as_object()).ok_or("`appointment` is not an object")?;
+                let s = |k: &str| -> Result<String, String> {
+                    a.get(k).and_then(|x| x.as_str()).map(|s| s.to_string()).ok_or(format!("`appointment.{k}` is not a string"))
+                };
+                match status.as_str() {
+                    "being_watched" => {
+                        if !is_hex(&s("locator")?, Some(16)) || !is_hex(&s("encrypted_blob")?, None) {
+                            return Err("locator / encrypted_blob are not lower-case hex".into());
+                        }
+                        a.get("to_self_delay").and_then(|x| x.as_u64()).ok_or("`appointment.to_self_delay` is not a number")?;
+                    }
+                    "dispute_responded" => {
+                        let d = s("dispute_txid")?;
+                        let p = s("penalty_txid")?;
+                        let raw = s("penalty_rawtx")?;
+                        if !is_hex(&d, Some(32)) || !is_hex(&p, Some(32)) || !is_hex(&raw, None) {
+                            return Err("txids / raw transaction are not lower-case hex".into());
+                        }
+                        let tx: bitcoin::Transaction = bitcoin::consensus::deserialize(&hex::decode(&raw).map_err(|e| e.to_string())?)
+                            .map_err(|e| format!("`penalty_rawtx` is not a transaction: {e}"))?;
+                        if tx.compute_txid().to_string() != p {
+                            return Err(format!("`penalty_txid` {p} is not the id of `penalty_rawtx` ({}) in the usual byte order", tx.compute_txid()));
+                        }
+                        if tx.input.first().map(|i| i.previous_output.txid.to_string()) != Some(d.clone()) {
+                            return Err(format!("`dispute_txid` {d} is not the transaction the penalty spends, in the usual byte order"));
+                        }
+                    }
+                    other => return Err(format!("status `{other}` is not a documented status")),
+                }
+            }
+            Endpoint::GetSubscriptionInfo => {
+                num("available_slots")?;
+                num("subscription_expiry")?;
+                let l = o.get("locators").and_then(|x| x.as_array()).ok_or("`locators` is not an array")?;
+                if !l.iter().all(|x| x.as_str().map(|s| is_hex(s, Some(16))).unwrap_or(false)) {
+                    return Err("`locators` are not 16-byte lower-case hex strings".into());
+                }
+            }
+            Endpoint::Ping => {}
+        }
+        Ok(())
+    })();
+    r.err()
 }
